@@ -113,6 +113,33 @@ pub fn to_tuples(updates: &[Update]) -> Vec<Tuple> {
         .collect()
 }
 
+/// Replay updates in logical-time order with set semantics and return the
+/// resulting relation contents.
+///
+/// The running engine applies an insert only if the tuple is absent and a delete
+/// only if it is present, while the log records the *requested* updates. Summing
+/// diffs therefore diverges from the served state for a repeated insert followed
+/// by one delete (sum +1: the tuple would reappear) or a delete of an absent tuple
+/// followed by an insert (sum 0: the tuple would vanish). Replaying the log the
+/// way it was applied reproduces the served state; it is also idempotent for
+/// entries that are replayed twice after a crash.
+pub fn replay_to_current_set(updates: &[Update]) -> Vec<Tuple> {
+    let mut ordered: Vec<&Update> = updates.iter().collect();
+    // Stable: entries with the same logical time keep their log order
+    ordered.sort_by_key(|u| u.time);
+    let mut present: std::collections::HashSet<&Tuple> = std::collections::HashSet::new();
+    for u in ordered {
+        if u.diff > 0 {
+            present.insert(&u.data);
+        } else if u.diff < 0 {
+            present.remove(&u.data);
+        }
+    }
+    let mut tuples: Vec<Tuple> = present.into_iter().cloned().collect();
+    tuples.sort();
+    tuples
+}
+
 /// Convert consolidated updates to tuples with their multiplicities.
 ///
 /// Useful for debugging or multiset semantics.
